@@ -28,7 +28,7 @@ FLOORS = {
                  'helpers_judged': 30000, 'position:index': 8000, 'position:quantifier-domain': 8000,
                  'fault:unknown-field': 20000, 'fault:index-out-of-range': 12000},
 }
-BUDGET = {'quick': 20000, 'thorough': 160000}
+BUDGET = {'quick': 20000, 'thorough': 1200000}
 TIMEOUT = {'quick': 900, 'thorough': 7200}
 
 POSITIONS = ('top', 'index', 'range-bound', 'set-element', 'function-argument', 'quantifier-domain',
@@ -232,6 +232,23 @@ def run(ctx):
                 ctx.violation('schema-check-returns-value', w, feats)
             else:
                 ctx.count('valid_passed')
+                if n % 3 == 0:
+                    # history / schema-side fault: the same property object against a schema that lacks the fields
+                    # (must fail), then against the original schema again (must pass again)
+                    from hpl.types import MessageType
+                    key = owner_topic if not through_alias else aname
+                    broken = dict(msg_types)
+                    broken[key] = MessageType('Empty')
+                    ob = hplapi.outcome(hp.type_check_references, broken)
+                    ctx.evaluation(f'schema-side|{position}|{"alias" if through_alias else "own"}', True)
+                    ctx.count('schema_side_faults_judged')
+                    if ob[0] == 'ok':
+                        ctx.violation('faulty-path-accepted', dict(w, schema_fault=f'type of {key} replaced by an empty message type'),
+                                      feats | {'shape:schema-side-fault'})
+                    oa = hplapi.outcome(hp.type_check_references, msg_types)
+                    if oa[0] != 'ok':
+                        ctx.violation('schema-check-rejects-valid', dict(w, history='after a failing check with another schema',
+                                                                     message=str(oa[1])[:200]), feats | {'shape:history'})
             continue
         ctx.count('faults_judged')
         ctx.count('fault:' + fault)
